@@ -42,17 +42,31 @@ def holdings(m, t):
     return m["liq"][t] + m["simp"][t] + m["fee"][t] + m["col"][0][t] + m["col"][1][t]
 
 
+def secondary_spill(e):
+    """pnl tokens realised for the position (profit and positive impact, taken out of the pool) that did NOT
+    leave as secondary output / claimable amounts: they were used to pay costs (paid_in_secondary_output_amount
+    of do_pay_for_cost).  Only meaningful when pnl token != collateral token and no swap was executed."""
+    r, px = e["r"], e["px"]
+    p = e["ps"][e["arg"]["pos"] - 1]
+    pp_max = px["lmax"] if p["long"] else px["smax"]
+    sec_in = (r["pnl"] // pp_max if r["pnl"] > 0 else 0) + (r["impact"] // pp_max if r["impact"] > 0 else 0)
+    return sec_in - r["out2"] - r["hold"][1] - r["user"][1]
+
+
 def fee_dust(e, prev_r, r):
-    """Tokens credited to the pools but never collected by this step, when it has the shape of the known
-    rounding leak of pay_for_fees_excluding_funding: a successful decrease whose collateral ran out, with
-    pnl token != collateral token, where the unpaid remainder of the fees is worth less than one pnl token
-    (do_pay_for_cost floors it to zero secondary tokens and the fees count as fully paid).
+    """Tokens credited to the pools but never collected by this step, when it has exactly the shape of the
+    known rounding leak of pay_for_fees_excluding_funding: a successful decrease whose collateral ran out, with
+    pnl token != collateral token, no swap executed, NO pnl tokens used to pay costs, fees booked (not cleared),
+    the pnl-token ledger exact, and the uncollected remainder of the fees worth strictly less than one
+    pnl-token base unit at this event's prices (do_pay_for_cost floors it to zero secondary tokens).
     Returns [dust_long, dust_short] or None if the step does not have that shape."""
     if not (e["op"] == "decrease" and e["ok"] and e["ncb"] == 0 and prev_r is not None):
         return None
     p = e["ps"][e["arg"]["pos"] - 1]
     tc, tp = _ix(p["cl"]), _ix(p["long"])
-    if tc == tp or p["col"] != 0:
+    if tc == tp or p["col"] != 0 or "swapped" in e["cbs"] or "swap_error" in e["cbs"]:
+        return None
+    if secondary_spill(e) != 0 or e["r"]["insolv"]:
         return None
     exc = []
     for t in (0, 1):
@@ -60,7 +74,7 @@ def fee_dust(e, prev_r, r):
         exc.append(due - e["r"]["cf"][t] - (r[t] - prev_r[t]))
     pc = e["px"]["lmin"] if tc == 0 else e["px"]["smin"]
     pp = e["px"]["lmin"] if tp == 0 else e["px"]["smin"]
-    if exc[tc] > 0 and exc[tp] == 0 and exc[tc] * pc < pp:
+    if 0 < exc[tc] <= e["r"]["fee_ex"] and exc[tp] == 0 and exc[tc] * pc < pp:
         return exc
     return None
 
@@ -257,6 +271,44 @@ def cross_collateral_scenarios(n):
     return rows
 
 
+def fee_spill_scenarios(n):
+    """cross-collateral positions closed IN PROFIT without the profit->collateral swap while their collateral
+    (whose token lost value) no longer covers the order fees: the fees spill into the secondary output.
+    A larger opposite position is opened first, so the target's open improves the balance (cheap) and its
+    close worsens it (the higher fee factor applies)."""
+    fees = {2: (1, 2), 3: (1, 1), 4: (2, 3)}            # order fee factors (improved, worsened) in tenths at DECIMALS = 1
+    rows = []
+    for k in range(n):
+        fe = (4, 2, 4, 3)[k % 4]
+        pos_f, neg_f = fees[fe]
+        size = 400 + 50 * (k % 5)
+        usd = size * (pos_f + neg_f + 1) // 10 + 20 + 10 * (k % 3)      # open fee + hypothetical close fee + 10 % + a bit
+        rows += [dict(RESET, fe=fe, fp=4 if k % 3 else 0, bp=2 if k % 2 else 1), {"op": "init"}]
+        if k % 2 == 0:
+            # long backed by the short token: index up, short token 3 -> 1
+            slot, opp = (2 if k % 4 else 6), 4
+            rows += [{"op": "price", "imin": 10, "lmin": 10, "smin": 3}, {"op": "deposit", "l": 500, "s": 2000},
+                     {"op": "increase", "pos": opp, "size": 2 * size, "coll": (2 * size * 12 // 10) // 3 + 1},
+                     {"op": "increase", "pos": slot, "size": size, "coll": usd // 3 + 1},
+                     {"op": "update_funding"}, {"op": "update_borrowing"}, {"op": "tick", "dt": 1},
+                     {"op": "price", "imin": 13 + k % 3, "lmin": 13 + k % 3, "smin": 1},
+                     {"op": "update_borrowing"}]
+        else:
+            # short backed by the long (= index) token: both fall 12 -> 6..7
+            slot, opp = (3 if k % 4 == 1 else 7), 1
+            rows += [{"op": "price", "imin": 12, "lmin": 12, "smin": 1}, {"op": "deposit", "l": 600, "s": 5000},
+                     {"op": "increase", "pos": opp, "size": 2 * size, "coll": (2 * size * 12 // 10) // 12 + 1},
+                     {"op": "increase", "pos": slot, "size": size, "coll": usd // 12 + 1},
+                     {"op": "update_funding"}, {"op": "update_borrowing"}, {"op": "tick", "dt": 1},
+                     {"op": "price", "imin": 6 + k % 2, "lmin": 6 + k % 2, "smin": 1},
+                     {"op": "update_borrowing"}]
+        if k % 5 == 0:
+            rows.append({"op": "decrease", "pos": slot, "size": size // 2, "wd": 0, "swap": 0})       # partial first
+        rows += [{"op": "decrease", "pos": slot, "size": size, "wd": 0, "swap": 0, "cap": True},
+                 {"op": "decrease", "pos": opp, "size": 100000, "cap": True, "wd": 0, "ins": True}]
+    return rows
+
+
 def judge(ctx, pid, batch, stats):
     """validate one batch; report this property's monitor failures; collect statistics"""
     fails, drifts, _ = ctx.validate_trace(TRACE, batch.trace, cfg=batch.cfg)
@@ -318,6 +370,11 @@ def collect(st, ev):
                     st["liquidations"] += 1
                 if r["insolv"]:
                     st["insolvent"] += 1
+                p1 = e["ps"][a["pos"] - 1]
+                if (p1["long"] != p1["cl"] and not r["insolv"] and "swap" not in e["cbs"] and r["pnl"] > 0
+                        and secondary_spill(e) > 0 and r["hold"][1] == 0):
+                    # costs other than funding were partly paid with profit tokens and the close completed
+                    st["fees_paid_from_secondary"] += 1
             if r["fund"] > 0:
                 st["funding_collected"] += 1
             if r["cf"][0] + r["cf"][1] > 0:
@@ -422,6 +479,7 @@ def run(ctx, pid):
         pats = r.tagged("T")
         need(len(pats) > 100, "MC_FundingBack printed only %d patterns" % len(pats))
         batches.append(replay_batch(ctx, "funding_scenarios", funding_scenarios(pats, 250 if q else 2500)))
+        batches.append(replay_batch(ctx, "fee_spill", fee_spill_scenarios(60 if q else 600)))
     elif pid == "C12":
         r = ctx.model_check("MC_Funding", cfg="MC_Funding" if q else "MC_Funding_thorough", workers=8,
                             timeout=1500, coverage=False)
@@ -476,6 +534,7 @@ def run(ctx, pid):
                 "USD and tokens, resulting position); histories: TLC-printed scripts of MC_OIBook replayed under 3 fee/"
                 "impact configurations + seeded random histories over 8 position slots (2 owners x side x collateral)")
     elif pid == "C08":
+        need_v(st["fees_paid_from_secondary"] > 5, "C08: no close paid its fees partly from the secondary output (%d)" % st["fees_paid_from_secondary"])
         need_v(st["funding_collected"] > 5 and st["funding_claimed"] > 5 and st["backed_states"] > 50 and ops[("swap", True)] > 0
              and ops[("withdraw", True)] > 0, "C08 history classes missing: collected=%d claimed=%d backed_states=%d" % (
                  st["funding_collected"], st["funding_claimed"], st["backed_states"]))
